@@ -157,11 +157,10 @@ func MsgFromGo(x interface{}) *Msg {
 
 var Modes = []string{"message", "message_ext", "forward", "packed"}
 
-// BigEntryCounts: entry counts of the rare long entry lists.  The model's per-entry decoder gives itself fuel
-// proportional to the remaining input at every entry (coq/model/Forward.v U_entry), which makes the MODEL's
-// evaluation quadratic in the number of entries; lists are kept at a size it evaluates in seconds (array16
-// header).  The array32 header class is exercised through the alternative encoder (widened headers).
-var BigEntryCounts = []int{1200, 1500}
+// BigEntryCounts: entry counts of the rare long entry lists: both sides of the array16 / array32 header
+// boundary.  (The model evaluates them in seconds since its entry loops hand their fuel down and reverse
+// their accumulators in one pass: coq/model/ForwardFast.v, proofs/Fuel_Proofs.v.)
+var BigEntryCounts = []int{65535, 65536}
 
 func GenEntries(r *rand.Rand, big bool) []Entry {
 	n := []int{0, 1, 2, 3, 15, 16, 17}[r.Intn(7)]
